@@ -11,8 +11,15 @@
     [nonce_rewrite n body] = the loop of the [nonce] Present extension; [nonce_spec] / [render] =
     the splice specification.  [package_chain rules server path h] = [resolve_package] with the
     Package extensions of [Extensions::new] + [with_csp] + [with_server_header] applied to the
-    response head [h] (any status) for a request whose path is [path]. *)
-From KV Require Import Bytes RuleSetStd RuleSet Nonce RuleSetProofs NonceProofs.
+    response head [h] (any status) for a request whose path is [path]; [package_chain_cfg] the same with
+    the flags of [with_server_header].  [csp_path p] = the path the file of request path [p] is read
+    from (percent-decoded, repeated slashes collapsed): the CSP rule is the one for that path.
+    [parse_policy] = a CSP parser (split on ';', tokens separated by spaces); [spec_policy r nonce] = the
+    directives and sources rule [r] holds, with the nonce source added to the four script/style
+    directives.  [present_chain guard rewrite rng line k p] = the Present directives [line] of the first
+    line of a page ([nonce], kvarn_extensions' [cache], [allow-ips], [hide]) run in order on the handler's
+    response [p]; [page_history] = n requests for the page through the cache. *)
+From KV Require Import Bytes RuleSetStd RuleSet Nonce RuleSetProofs NonceProofs CspPolicyProofs.
 From KV Require Cache.
 Open Scope N_scope.
 
@@ -98,11 +105,36 @@ Theorem nonce_in_directives : forall (r : csp_rule) (n d : bytes),
     sep_head pre /\ sep_tail post.
 Proof. exact nonce_in_four_directives. Qed.
 
+(** the serialisation against an independent reading: what a CSP parser reads from the emitted text is
+    exactly what the rule holds (for rules and nonces made of tokens: no space, no semicolon, not empty) *)
+Theorem policy_parses : forall (r : csp_rule) (nonce : option bytes) (v : bytes),
+  wf_rule r -> wf_nonce nonce -> to_header_nonce r nonce = Some v -> parse_policy v = spec_policy r nonce.
+Proof. exact to_header_nonce_parses. Qed.
+
+(** a header is emitted exactly when the rule holds something or the page has a nonce *)
+Theorem policy_emitted_iff : forall (r : csp_rule) (nonce : option bytes),
+  length (fst r) = 27%nat ->
+  (to_header_nonce r nonce = None -> spec_policy r nonce = []) /\
+  (forall v, to_header_nonce r nonce = Some v -> spec_policy r nonce <> []).
+Proof. exact (fun r nonce L => conj (to_header_nonce_none r nonce) (fun v => to_header_nonce_some_nonempty r nonce v L)). Qed.
+
+(** each of the four directives holds the rule's sources (['self'] when it has none) and then the nonce
+    source — once: [spec_sources true] is what [spec_policy] gives the four directives *)
+Theorem policy_nonce_directive : forall (r : csp_rule) (n d : bytes),
+  length (fst r) = 27%nat -> hv_to_str_ok n = true -> In d nonce_directives ->
+  exists vals, In ([d], vals) (combine directive_names (fst r)) /\
+               In (d, (match vals with [] => [SELF] | _ => vals end) ++ [nonce_source n]) (spec_policy r (Some n)).
+Proof. exact spec_policy_nonce_directive. Qed.
+Theorem policy_nonce_once : forall (n : bytes) (vals : list bytes),
+  hv_to_str_ok n = true -> ~ In (nonce_source n) vals ->
+  count_occ (list_eq_dec N.eq_dec) (spec_sources true (Some n) vals) (nonce_source n) = 1%nat.
+Proof. exact spec_sources_once. Qed.
+
 (** the page and the policy sent with it carry the same value *)
 Theorem nonce_same_in_body_and_policy :
   forall (hist : list (bytes * csp_rule)) (rules : ruleset csp_rule) (server path : bytes)
          (rng : nat -> bytes) (handler : page) (rule : csp_rule) (k : nat),
-  rs_reach hist rules -> resolve hist path = Some rule ->
+  rs_reach hist rules -> resolve hist (csp_path path) = Some rule ->
   let reply := nonce_reply (rng k) handler in
   h_all H_CSP (package_chain rules server path (pg_headers reply))
   = match to_header_nonce rule (Some (rng k)) with Some v => [v] | None => h_all H_CSP (pg_headers handler) end /\
@@ -111,9 +143,9 @@ Theorem nonce_same_in_body_and_policy :
 Proof. exact page_and_policy_same_nonce. Qed.
 
 (** ---- 4. a nonce page is never cached ---- *)
-Theorem nonce_not_cached : forall (rng : nat -> bytes) (handler : page) (n : nat),
-  page_history nonce_rewrite rng true handler n {| st_calls := O; st_cache := None |}
-  = Ok ({| st_calls := n; st_cache := None |}, map (fun k => nonce_reply (rng k) handler) (seq 1 n)).
+Theorem nonce_not_cached : forall (guard : bool) (rng : nat -> bytes) (handler : page) (n : nat),
+  page_history guard nonce_rewrite rng [DNonce] handler n pstate0
+  = Ok ({| st_calls := n; st_draws := n; st_cache := None |}, map (fun k => nonce_reply (rng k) handler) (seq 1 n)).
 Proof. exact nonce_never_cached. Qed.
 
 Theorem nonce_not_admitted :
@@ -123,13 +155,41 @@ Theorem nonce_not_admitted :
   forall cache_on m status compress, Cache.may_store cache_on m (fat_of status compress p') = false.
 Proof. exact nonce_page_not_admitted. Qed.
 
-Theorem nonce_fresh_per_response : forall (rng : nat -> bytes) (handler : page) (n i j : nat),
+Theorem nonce_fresh_per_response : forall (guard : bool) (rng : nat -> bytes) (handler : page) (n i j : nat),
   (forall a b, a <> b -> rng a <> rng b) -> i <> j -> (i < n)%nat -> (j < n)%nat ->
-  forall st out, page_history nonce_rewrite rng true handler n {| st_calls := O; st_cache := None |} = Ok (st, out) ->
+  forall st out, page_history guard nonce_rewrite rng [DNonce] handler n pstate0 = Ok (st, out) ->
   exists ri rj, nth_error out i = Some ri /\ nth_error out j = Some rj /\
                 h_get H_NONCE (pg_headers ri) = Some (rng (S i)) /\ h_get H_NONCE (pg_headers rj) = Some (rng (S j)) /\
                 rng (S i) <> rng (S j).
 Proof. exact nonce_replies_differ. Qed.
+
+(** ... whatever else the first line of the page says, in whatever order ([!> nonce &> cache server:full],
+    [!> allow-ips .. &> nonce &> cache ..], ...), for every rewriter and every history of requests: nothing
+    that carries a nonce is in the cache, and two replies that carry a nonce carry different draws *)
+Theorem nonce_not_cached_any_line :
+  forall (rewrite : bytes -> bytes -> outcome bytes) (rng : nat -> bytes) (line : list directive) (handler : page)
+         (n : nat) (st : pstate) (out : list page),
+  nonce_of handler = None ->
+  page_history true rewrite rng line handler n pstate0 = Ok (st, out) ->
+  (forall p, st_cache st = Some p -> nonce_of p = None) /\
+  ((forall a b, a <> b -> rng a <> rng b) ->
+   forall i j ri rj x y, i <> j -> nth_error out i = Some ri -> nth_error out j = Some rj ->
+   nonce_of ri = Some x -> nonce_of rj = Some y -> x <> y).
+Proof. exact any_line_fresh. Qed.
+
+Theorem nonce_line_never_admitted :
+  forall (rewrite : bytes -> bytes -> outcome bytes) (rng : nat -> bytes) (line : list directive) (k k' : nat) (p p' : page),
+  present_chain true rewrite rng line k p = Ok (k', p') -> nonce_of p' <> None -> pg_pref p' = SNone.
+Proof. exact (fun rewrite rng line k k' p p' => guard_pref rewrite rng line k p k' p'). Qed.
+
+(** kvarn 0.6.3 + kvarn_extensions fails this: [!> nonce &> cache server:full] is stored with its nonce *)
+Theorem nonce_line_v0_refuted :
+  (exists r, page_history false nonce_rewrite sym_nonce [DNonce; DCache (Some SFull)] line_v0_handler 2 pstate0
+             = Ok ({| st_calls := 1; st_draws := 1; st_cache := Some r |}, [r; r]) /\ nonce_of r = Some (sym_nonce 1)) /\
+  (exists r1 r2, page_history true nonce_rewrite sym_nonce [DNonce; DCache (Some SFull)] line_v0_handler 2 pstate0
+             = Ok ({| st_calls := 2; st_draws := 2; st_cache := None |}, [r1; r2]) /\
+             nonce_of r1 = Some (sym_nonce 1) /\ nonce_of r2 = Some (sym_nonce 2)).
+Proof. exact line_v0_cached. Qed.
 
 (** ---- 5. the internal header never leaves the Package chain ---- *)
 Theorem internal_header_hidden : forall (rules : ruleset csp_rule) (server path : bytes) (h : headers),
@@ -152,17 +212,55 @@ Theorem always_headers :
   h_all H_NONCE (package_chain rules server path h) = [].
 Proof. exact chain_always_headers. Qed.
 
-(** ... and in the send-path model every reply (hit, miss, 4xx, 304, 206, 416) went through it *)
-Theorem always_headers_send :
-  forall (rewrite : bytes -> bytes -> outcome bytes) (hist : list (bytes * csp_rule)) (rules : ruleset csp_rule)
-         (server : bytes) (hs : list chandler),
+(** ... with the flags of [with_server_header] (platform suffix; [override_server_header = false] appends) *)
+Theorem always_headers_flags :
+  forall (hist : list (bytes * csp_rule)) (rules : ruleset csp_rule) (platform override : bool) (server path : bytes) (h : headers),
   rs_reach hist rules ->
-  forall rs st out, conn_run rewrite (fun p h => package_chain rules server p h) hs st rs = Ok out ->
-  Forall (fun rep => h_all H_SERVER (rp_headers rep) = [server] /\ h_all H_NONCE (rp_headers rep) = [] /\
-                     h_all H_REFERRER (rp_headers rep) <> [] /\
-                     exists p h, h_all H_CSP (rp_headers rep) = spec_csp hist p h /\
-                                 h_all H_REFERRER (rp_headers rep) = spec_referrer h) out.
+  h_all H_CSP (package_chain_cfg (mkCfg true true true platform override) rules server path h) = spec_csp hist path h /\
+  h_all H_REFERRER (package_chain_cfg (mkCfg true true true platform override) rules server path h) = spec_referrer h /\
+  h_all H_SERVER (package_chain_cfg (mkCfg true true true platform override) rules server path h) = spec_server platform override server h /\
+  h_all H_NONCE (package_chain_cfg (mkCfg true true true platform override) rules server path h) = [].
+Proof. exact chain_flags_headers. Qed.
+
+(** ... and what a CSP parser reads from the header is the policy of the most specific rule for the path
+    the file is read from (or what the handler set when that rule holds nothing / no rule covers it) *)
+Theorem always_policy :
+  forall (hist : list (bytes * csp_rule)) (rules : ruleset csp_rule) (platform override : bool) (server path : bytes) (h : headers),
+  rs_reach hist rules -> Forall (fun e => wf_rule (snd e)) hist -> wf_nonce (h_get H_NONCE h) ->
+  map parse_policy (h_all H_CSP (package_chain_cfg (mkCfg true true true platform override) rules server path h))
+  = spec_csp_parsed hist path h.
+Proof. exact chain_policy. Qed.
+
+(** kvarn 0.6.3 fails this: the rule was looked up with the path as spelled in the request *)
+Theorem csp_raw_path_refuted :
+  h_all H_CSP (package_chain_raw (rs_build rs_add raw_hist) (B "S") (B "/%75c/evil.html") [])
+    = [B "default-src 'self'; style-src 'self' 'unsafe-inline'"] /\
+  spec_csp raw_hist (B "/%75c/evil.html") [] = [B "script-src 'none'"] /\
+  h_all H_CSP (package_chain (rs_build rs_add raw_hist) (B "S") (B "/%75c/evil.html") []) = [B "script-src 'none'"].
+Proof. exact raw_path_wrong_rule. Qed.
+
+(** ... and in the send-path model every reply (hit, miss, 4xx, 304, 206, 416) went through the chain with
+    the path of ITS request (after the Prime rewriting): the k-th reply carries the headers the property
+    demands for the k-th request's path and the head [h] of the response selected for it *)
+Theorem always_headers_send :
+  forall (guard : bool) (rewrite : bytes -> bytes -> outcome bytes) (hist : list (bytes * csp_rule)) (rules : ruleset csp_rule)
+         (platform override : bool) (server : bytes) (hs : list chandler),
+  rs_reach hist rules ->
+  forall rs st out,
+  conn_run guard rewrite (package_chain_cfg (mkCfg true true true platform override) rules server) hs st rs = Ok out ->
+  Forall2 (fun r rep => exists h,
+             h_all H_CSP (rp_headers rep) = spec_csp hist (prime_path (cr_path r)) h /\
+             h_all H_REFERRER (rp_headers rep) = spec_referrer h /\
+             h_all H_SERVER (rp_headers rep) = spec_server platform override server h /\
+             h_all H_NONCE (rp_headers rep) = []) rs out.
 Proof. exact conn_run_headers. Qed.
+
+(** [spec_csp] for a rule that holds something: exactly its serialisation (with the page's nonce, if any) *)
+Theorem send_policy_of_request_rule :
+  forall (hist : list (bytes * csp_rule)) (path : bytes) (h : headers) (rule : csp_rule) (v0 : bytes),
+  resolve hist (csp_path path) = Some rule -> to_header_nonce rule None = Some v0 ->
+  exists v, to_header_nonce rule (h_get H_NONCE h) = Some v /\ spec_csp hist path h = [v].
+Proof. exact spec_csp_rule. Qed.
 
 (** ---- non-vacuity ---- *)
 Definition ex_hist : list (bytes * N) :=
@@ -212,21 +310,47 @@ Example ex_chain :
 Proof. vm_compute. split; reflexivity. Qed.
 
 Example ex_history :
-  page_history nonce_rewrite sym_nonce true {| pg_body := B "<s nonce='x'>"; pg_headers := []; pg_pref := SFull |} 3
-    {| st_calls := O; st_cache := None |}
-  = Ok ({| st_calls := 3; st_cache := None |},
-        map (fun k => nonce_reply (sym_nonce k) {| pg_body := B "<s nonce='x'>"; pg_headers := []; pg_pref := SFull |}) [1; 2; 3]%nat)
+  page_history true nonce_rewrite sym_nonce [DNonce] (handler_page (B "<s nonce='x'>") 1) 3 pstate0
+  = Ok ({| st_calls := 3; st_draws := 3; st_cache := None |},
+        map (fun k => nonce_reply (sym_nonce k) (handler_page (B "<s nonce='x'>") 1)) [1; 2; 3]%nat)
   /\ sym_nonce 1 <> sym_nonce 2.
 Proof. split; [vm_compute; reflexivity|vm_compute; discriminate]. Qed.
 
+(** a line with several directives: the nonce survives [cache] and a matching [allow-ips], not [hide] *)
+Example ex_lines :
+  map (fun line => match present_chain true nonce_rewrite sym_nonce line 0 (handler_page (B "<s nonce='x'>") 1) with
+                   | Ok (k, p) => Some (k, pg_status p, nonce_of p, pg_pref p)
+                   | _ => None end)
+      [ [DNonce; DCache (Some SFull)]; [DCache (Some SFull); DNonce]; [DAllowIps true; DNonce; DCache (Some SMaxAge)];
+        [DNonce; DHide; DCache (Some SFull)]; [DNonce; DNonce]; [DCache (Some SQueryMatters)] ]
+  = [ Some (1%nat, 200, Some (sym_nonce 1), SNone); Some (1%nat, 200, Some (sym_nonce 1), SNone);
+      Some (1%nat, 200, Some (sym_nonce 1), SNone); Some (1%nat, 404, None, SFull);
+      Some (2%nat, 200, Some (sym_nonce 2), SNone); Some (0%nat, 200, None, SQueryMatters) ].
+Proof. vm_compute. reflexivity. Qed.
+
+(** a rule made of tokens, and what a parser reads from its serialisation *)
+Example ex_wf_rule : wf_rule ex_rule /\ wf_nonce (Some (B "AAAA")).
+Proof.
+  split; [|split; vm_compute; intuition discriminate].
+  split; [reflexivity|]. split; [|constructor].
+  repeat constructor; try (apply wf_tokb_ok; vm_compute; reflexivity).
+Qed.
+Example ex_parsed :
+  option_map parse_policy (to_header_nonce ex_rule (Some (B "AAAA"))) = Some (spec_policy ex_rule (Some (B "AAAA"))) /\
+  spec_policy ex_rule (Some (B "AAAA")) =
+  [ (B "default-src", [B "'self'"]); (B "script-src", [B "'self'"; B "'nonce-AAAA'"]);
+    (B "script-src-elem", [B "'self'"; B "'nonce-AAAA'"]); (B "style-src", [B "'self'"; B "'unsafe-inline'"; B "'nonce-AAAA'"]);
+    (B "style-src-elem", [B "'self'"; B "'nonce-AAAA'"]) ].
+Proof. vm_compute. split; reflexivity. Qed.
+
 (** the fixture of the send path: miss, hit, 304, 206, 416, 404, 400 all carry the headers *)
 Definition ex_handlers : list chandler :=
-  [mkCH (B "/p") 200 [(H_REFERRER, B "origin")] true false (B "0123456789")].
+  [mkCH (B "/p") 200 [(H_REFERRER, B "origin")] true [] (B "0123456789") false].
 Definition ex_reqs : list creq :=
-  [mkCR 0 (B "/p") 0 false; mkCR 0 (B "/p") 0 false; mkCR 0 (B "/p") 0 true; mkCR 0 (B "/p") 1 false;
-   mkCR 0 (B "/p") 2 false; mkCR 0 (B "/none") 0 false; mkCR 0 (B "/./p") 0 false].
+  [mkCR 0 (B "/p") 0 false 0; mkCR 0 (B "/p") 0 false 0; mkCR 0 (B "/p") 0 true 0; mkCR 0 (B "/p") 1 false 0;
+   mkCR 0 (B "/p") 2 false 0; mkCR 0 (B "/none") 0 false 0; mkCR 0 (B "/./p") 0 false 0].
 Example ex_send :
-  match conn_run nonce_rewrite (fun p h => package_chain (rs_build rs_add ex_csp_hist) (B "K") p h) ex_handlers (mkCS [] O) ex_reqs with
+  match conn_run true nonce_rewrite (package_chain_cfg (mkCfg true true true false true) (rs_build rs_add ex_csp_hist) (B "K")) ex_handlers (mkCS [] O) ex_reqs with
   | Ok out => map rp_status out = [200; 200; 304; 206; 416; 404; 400] /\
               map (fun r => h_all H_REFERRER (rp_headers r)) out
               = [[B "origin"]; [B "origin"]; [NO_REFERRER]; [B "origin"]; [NO_REFERRER]; [NO_REFERRER]; [NO_REFERRER]]
